@@ -185,6 +185,43 @@ def check(ctx):
         rep.add('Q4', fi.site(lf['node']), 'the list is the first report_closest entries of the ordered indices', okp, expected=f'[:{params}.report_closest]', found=u(it.slice), stmt='prefix slice')
         inner, inner_at = res.top(it.value, it_at)
     else:
+        # no slice: a located deviation only when the iterable IS an ordering the rule understands (then nothing truncates it); a selection
+        # helper the rule cannot read (a top-N fast path, a heap) is outside its vocabulary - undecided, not a violation
+        if isinstance(it, ast.Call):
+            probe, desc0 = ordering_is_stable(c03.strip_copies(res.deep(it, it_at)), dists)
+            if probe is None:
+                # a selection helper of the package: an index selection that is arbitrary at ties (argpartition, an argsort that is not
+                # stable, heapq on indices) anywhere in it is a located deviation - membership / order of equidistant genomes then depends
+                # on the algorithm; a helper without such a primitive is simply beyond this rule
+                hq = m.resolve_call(fi, it)
+                hfi = m.functions.get(hq or '')
+                bad_prims = []
+                seen_h = set()
+
+                def prims(hf, depth=0):
+                    if hf.qualname in seen_h or depth > 2:
+                        return
+                    seen_h.add(hf.qualname)
+                    for c in calls_in(hf.node):
+                        nm = callee_attr(c) or callee(c) or ''
+                        full = u(c.func)
+                        if nm == 'argpartition' or full in ('heapq.nsmallest', 'heapq.nlargest', 'nsmallest', 'nlargest'):
+                            bad_prims.append((hf, c, f'{full}: which of several equidistant entries is selected is unspecified'))
+                        elif nm == 'argsort':
+                            kind = get_kw(c, 'kind')
+                            if not (isinstance(kind, ast.Constant) and kind.value in STABLE_KINDS):
+                                bad_prims.append((hf, c, f'{u(c)[:50]}: not a stable sort'))
+                        tgt = m.functions.get(m.resolve_call(hf, c) or '')
+                        if tgt is not None and tgt.module.kind == 'py':
+                            prims(tgt, depth + 1)
+                if hfi is not None:
+                    prims(hfi)
+                for hf, c, why in bad_prims:
+                    rep.add('Q1', hf.site(c), 'the indices of the closest genomes are selected and ordered by (distance, reference position) for every tie pattern', False,
+                            expected="np.argsort(dists, kind='stable')[:N] or an equivalent the rule can read", found=why, stmt=c, construct=hf.qualname)
+                if bad_prims:
+                    return
+                raise Undecided(f'get_result_item: the ordered indices come from a construct outside the vocabulary: {u(it)[:80]}')
         rep.add('Q4', fi.site(lf['node']), 'the list is truncated to report_closest entries', False, expected=f'[:{params}.report_closest]', found=u(it), stmt='prefix slice')
         inner, inner_at = it, it_at
     rep.require(isinstance(inner, ast.Call), f'get_result_item: ordering expression is not a call: {u(inner)}')
